@@ -78,6 +78,22 @@ def t_unary(E, fn, kind, slen):
     E.prove(not r.raised or isinstance(r.exc, ALLOWED), 'only BASIC errors leave the function')
 
 
+_MATH = ['sqr_', 'exp_', 'sin_', 'cos_', 'tan_', 'atn_', 'log_']
+
+def t_math(E, fn, kind):
+    """SQR/EXP/SIN/COS/TAN/ATN/LOG: conversion to the working precision and the host maths may
+    fail (Overflow, domain errors); only BASIC errors may come out. The numeric value handed to the
+    host function is abstracted to a representative float (to_value / from_value are stubs)."""
+    vals = values_env(with_strings=True)
+    x = _val(E, vals, kind, 'x')
+    v = E.choice('value', [-1.0, 0.0, 1.0, 3.5, 1e38, 1e300, -1e300])
+    if E.mode == 'symbolic':
+        E.interp.contracts[numbers.Float.to_value] = lambda I, args, kw: v
+        E.interp.contracts[numbers.Float.from_value] = lambda I, args, kw: args[0]
+    r = E.call(getattr(values, fn), [x])
+    E.prove(not r.raised or isinstance(r.exc, ALLOWED), 'only BASIC errors leave the function')
+
+
 class _Rec(object):
     _pyvc_trusted = True
     def __init__(self):
@@ -183,6 +199,7 @@ TASKS = [
          cases=[{'fn': f, 'kind': k, 'slen': n} for f in _UNARY_LIST + _UNARY_DIRECT for k in KINDS
                 for n in ((0, 1, 2, 4, 8, 9) if k == 'str' else (2,))
                 if not (f == 'str_' and k in ('sng', 'dbl'))]),     # decimal conversion of floats is C07
+    Task('value layer: mathematical functions', t_math, cases=[{'fn': f, 'kind': k} for f in _MATH for k in KINDS]),
     Task('Memory.peek_ (default session)', t_peek_default),
 ]
 
